@@ -466,3 +466,26 @@ def node_data_of(ms: MS):
     if k == 'custom':
         return ms.meta
     return None
+
+
+# ---------------------------------------------------------------- broadcasting (reference)
+
+def fill(shape: MS, leaf):
+    import itertools
+    return rebuild(shape, itertools.repeat(leaf))
+
+
+def shell_of(node: MS, n=None):
+    n = len(node.children) if n is None else n
+    return MS(node.kind, node.type, [MS('leaf')] * n, node.entries, node.meta, node.orig_keys, node.reg)
+
+
+def broadcast_tree(src: MS, shape: MS):
+    """src (a model structure whose leaves carry .obj) is a prefix of shape: replicate every src
+    leaf over the sub-shape found at its position, keeping src's own node types / key order."""
+    if src.is_leaf:
+        return fill(shape, src.obj)
+    kids = node_match(src, shape)
+    if kids is None:
+        raise Conflict
+    return rebuild(shell_of(src), iter([broadcast_tree(x, y) for x, y in zip(src.children, kids)]))
